@@ -2,6 +2,7 @@
 //! concordium_base and the key-derivation crates of /repo/rust-src.
 mod alloc;
 mod auth;
+mod builder;
 mod cborx;
 mod cc;
 mod schemax;
@@ -24,6 +25,7 @@ fn main() {
     let code = match args[1].as_str() {
         "auth-replay" => auth::main(rest),
         "envelope-replay" => envelope::main(rest),
+        "builder-replay" => builder::main(rest),
         "updkeys-replay" => updkeys::main(rest),
         "wire-replay" => wire::main(rest),
         "text-replay" => text::main(rest),
